@@ -229,3 +229,17 @@ CHECKS["C16"] = dict(
     assumptions=["C16 clause 1 is read as 'no silent loss': an exception no later than the rotate_output that closes the output (DESIGN 8.2)"],
 )
 ENGINES.append(dict(name="E-FAULT", path="harness/fault.cpp", serves_properties=["C15", "C16"], kind_free_text="exhaustive crash-point / write-fault enumeration with interposed write, writev, rename"))
+
+_TOOLS = ["cdns-merge", "cdns-itemcount", "cdns-blocks", "cdns-items", "cdns-preamble"]
+CHECKS["C18"] = dict(
+    level="exploration", engine="E-CLI",
+    technique="exhaustive enumeration of argument tuples on the real tool binaries: every tuple of 1..3 inputs over a pool of 9 files through cdns-merge, cdns-itemcount with every option combination, compared with the independent reader",
+    level_text="Pool: A (1 parameter set, 10^6 ticks, 3 blocks), B (2 sets, 10^3 ticks, reduced hints, collection parameters, 4 blocks alternating sets), C (10^9 ticks, all QR hints off, statistics), D (minor version differs), E (private version differs), G (300 non-C-DNS bytes), H (B cut inside its 2nd block), I (valid, zero blocks), Z (missing path). All 9+81+729 tuples are merged by the real cdns-merge (ASan/UBSan build); expected blocks = non-empty blocks of every input that is C-DNS and version-equal to the first readable one, up to its first error, in order; the output must validate, hold exactly those blocks with records, statistics, earliest time and absolute times unchanged, and each block's parameter set in the output preamble must equal the one it had in its source; with no contributing block the output must be empty. cdns-itemcount (-b, -p, both, none) on every valid input and merged output must print the counts of the independent parse.",
+    level_note="Trusted: ref/ reader for inputs and outputs; integers are extracted from the tools' stdout without relying on the free-text layout. The other inspection tools are covered for safety by C03's tools stage.",
+    stages=[dict(harness="cli", variant="asan", args=["--mode", "merge"], tools=["cdns-merge", "cdns-itemcount"])],
+    rule="tuples enumerated exhaustively (order matters, repetition allowed); every tuple is a distinct real tool run; non-trivial: all",
+    bound_quick="tuples of length <= 3; itemcount on merged outputs of tuples of length <= 2", bound_thorough="itemcount on every merged output",
+    assumptions=["a zero-byte output is accepted exactly when no input contributes a block (C02's convention)"],
+)
+ENGINES.append(dict(name="E-CLI", path="harness/cli.cpp", serves_properties=["C18", "C03"], kind_free_text="exhaustive argument-tuple enumeration on the real CLI binaries"))
+CHECKS["C03"]["stages"].append(dict(harness="cli", variant="asan", args=["--mode", "tools"], tools=_TOOLS, prefix="tools_"))
